@@ -21,7 +21,7 @@ PROFILE = {
     'async_handlers': False,
 }
 
-FIXED = ['x', '9', '4"err"', '2', '2[]', '2{"a":1}', '2"msg"', '2[["a"]]', '2[{"a":1},2]', '2[5]', '2[null,1]',
+FIXED = ['2["*","s1","x"]', '2/a,7["*","s0"]', '2["*"]', 'x', '9', '4"err"', '2', '2[]', '2{"a":1}', '2"msg"', '2[["a"]]', '2[{"a":1},2]', '2[5]', '2[null,1]',
          '3', '31', '31{"a":1}', '31"ab"', '31 5', '51-["msg",{"_placeholder":true,"num":5}]',
          '51-["msg",{"_placeholder":true,"num":-1}]', '51-["msg",{"_placeholder":true,"num":"0"}]',
          '51-{"_placeholder":true,"num":0}', '59999999999-["msg"]', '510000000000-["msg"]', '5-["msg"]',
@@ -89,7 +89,7 @@ def gen_hook(sc, cfg):
     sc.g_hostile = g_hostile
 
 
-RESERVED_EV = ('connect', 'disconnect', '*')
+RESERVED_EV = ('connect', 'disconnect')
 
 
 def representable_domain(op):
@@ -286,8 +286,10 @@ def two_run(cfg, trace, info, server_opts):
             if t != OFF:
                 fails.append((None, 'a frame from the offender made the server send to %s: %r -> %r' % (t, S._brief(op), fr)))
         for sl, a in im['invokes']:
-            if not any(isinstance(x, str) and owner.get(x) == OFF for x in a):
-                fails.append((None, 'a frame from the offender invoked a handler without one of its own session ids: %r' % ((sl, a),)))
+            pos = S.sid_position(sl)
+            if len(a) <= pos or owner.get(a[pos]) != OFF:
+                fails.append((None, 'a frame from the offender invoked a handler whose session-id argument is not one of the '
+                                    'offender\'s own ids (handler invoked on behalf of somebody else): %r' % ((sl, a),)))
         if im['callbacks']:
             # a callback may fire only for an id the server issued to the offender itself: checked by C06's oracle;
             # here: never in the same step as an error
